@@ -34,6 +34,10 @@ type Tx struct {
 	Mut      *am.Mutation `json:"-"`
 	// Finals tells whether TransitionFinals was seen for this tx.
 	Finals bool `json:"finals,omitempty"`
+	// FinTimeAfter / FinMachTime: the transition's TimeAfter and Machine.Time(nil) as seen inside
+	// TransitionFinals (the new states are applied and visible, the final handlers are about to run)
+	FinTimeAfter am.Time `json:"fin_after,omitempty"`
+	FinMachTime  am.Time `json:"fin_mach_time,omitempty"`
 }
 
 // Ev is one raw tracer callback, for bracket/order checks.
@@ -53,6 +57,7 @@ type Tracer struct {
 	Queued []*am.Mutation
 	// SampleTime controls whether Machine.Time is sampled in TransitionEnd.
 	SampleTime bool
+	fin        map[string][2]am.Time
 	// OnEnd is an optional extra hook run inside TransitionEnd.
 	OnEnd func(t *am.Transition, rec *Tx)
 }
@@ -77,8 +82,18 @@ func (tr *Tracer) TransitionStart(t *am.Transition) {
 }
 
 func (tr *Tracer) TransitionFinals(t *am.Transition) {
+	var fa, fm am.Time
+	if tr.SampleTime {
+		fa, fm = cpT(t.TimeAfter), t.Machine.Time(nil)
+	}
 	tr.mu.Lock()
 	tr.Evs = append(tr.Evs, Ev{Kind: "finals", TxId: t.Id})
+	if tr.SampleTime {
+		if tr.fin == nil {
+			tr.fin = map[string][2]am.Time{}
+		}
+		tr.fin[t.Id] = [2]am.Time{fa, fm}
+	}
 	tr.mu.Unlock()
 }
 
@@ -98,6 +113,10 @@ func (tr *Tracer) TransitionEnd(t *am.Transition) {
 		tr.OnEnd(t, r)
 	}
 	tr.mu.Lock()
+	if f, ok := tr.fin[t.Id]; ok {
+		r.FinTimeAfter, r.FinMachTime = f[0], f[1]
+		delete(tr.fin, t.Id)
+	}
 	for i := len(tr.Evs) - 1; i >= 0; i-- {
 		if tr.Evs[i].TxId != t.Id {
 			continue
